@@ -76,6 +76,26 @@ Proof.
   destruct (Nat.eqb k k') eqn:E; simpl; [exact IH|rewrite E, IH; reflexivity].
 Qed.
 
+(* what must not change: Update and Map touch values only, never the keys or their order *)
+Lemma s_update_keys (s : smap) k f : map fst (s_update s k f) = map fst s.
+Proof.
+  induction s as [|[k' v'] r IH]; simpl; [reflexivity|].
+  destruct (Nat.eqb k k'); simpl; [reflexivity|rewrite IH; reflexivity].
+Qed.
+
+Lemma s_map_keys (s : smap) f : map fst (fst (fst (s_map s f))) = map fst s.
+Proof.
+  induction s as [|[k v] r IH]; simpl; [reflexivity|].
+  destruct (f k v) as [v'|]; [|reflexivity].
+  destruct (s_map r f) as [[r' tr] ok]. simpl in *. rewrite IH. reflexivity.
+Qed.
+
+Lemma s_filter_comm (s : smap) f g : s_filter (s_filter s f) g = s_filter (s_filter s g) f.
+Proof.
+  unfold s_filter. induction s as [|[k v] r IH]; simpl; [reflexivity|].
+  destruct (f k v) eqn:Ef; destruct (g k v) eqn:Eg; simpl; rewrite ?Ef, ?Eg, IH; reflexivity.
+Qed.
+
 (* ---------- the same laws for the model of the Go type ---------- *)
 Notation abs := (abs zero).
 Implicit Types m : @omap V.
@@ -125,6 +145,19 @@ Proof.
   intros HI H1 H2. destruct (filter_ok zero m f m1 t1 HI H1) as (HI1 & _ & Hf1).
   destruct (filter_ok zero m1 f m2 t2 HI1 H2) as (_ & Ht & Hf2).
   split; [|exact Ht]. rewrite <- Hf2, <- Hf1. apply s_filter_idem.
+Qed.
+
+Theorem m_update_keeps_keys m k f : Inv m ->
+  map fst (abs (m_update zero m k f)) = map fst (abs m).
+Proof.
+  intros HI. destruct (update_ok zero m k f HI) as [_ <-]. apply s_update_keys.
+Qed.
+
+Theorem m_map_keeps_keys m f (m1 : @omap V) tr ok : Inv m -> m_map zero m f = (m1, tr, ok) ->
+  map fst (abs m1) = map fst (abs m).
+Proof.
+  intros HI Hm. destruct (map_ok zero m f m1 tr ok HI Hm) as [_ Hs].
+  pose proof (s_map_keys (abs m) f) as Hk. rewrite Hs in Hk. exact Hk.
 Qed.
 
 End Laws.
